@@ -6,9 +6,9 @@
 From Coq Require Import Reals List.
 From Coquelicot Require Import Coquelicot.
 From OV.base Require Import Num.
-From OV.gen Require Import Gen_Math Gen_TensorMathFun Gen_TensorMathAD.
-From OV.model Require Import M_C10.
-From OV.proofs Require Import L_C10 L_C10_DK L_C10_End L_C10_DKV.
+From OV.gen Require Import Gen_Math Gen_TensorMathFun Gen_TensorMathAD Gen_TensorMathJVP.
+From OV.model Require Import M_C10 M_C10_Dual.
+From OV.proofs Require Import L_C10 L_C10_DK L_C10_End L_C10_DKV L_C10_Gen L_C10_Inv L_C10_DKF L_C10_F14.
 Local Open Scope R_scope.
 
 (* (1) custom_root's tangent solve `lambda g, y: y / g(1.0)` inverts every linear map t |-> a t, a <> 0; together with the scalar
@@ -139,8 +139,118 @@ Example C10_dkv_nonvacuous :
   /\ peval 0 (1 :: 0 :: 2 :: nil) 3 = 19 /\ pderiv 0 (1 :: 0 :: 2 :: nil) 3 = 12
   /\ pdd 0 (1 :: 0 :: 2 :: nil) 3 5 = (peval 0 (1 :: 0 :: 2 :: nil) 3 - peval 0 (1 :: 0 :: 2 :: nil) 5) / (3 - 5).
 Proof. exact dkv_nonvacuous. Qed.
-(* NOT PROVED: C10_daleckii_krein for general (non-polynomial) f and non-diagonal A (needs the spectral calculus / orthogonal
-   change of basis V, where the helper's V (h o V^T E V) V^T form is only tied by correspondence); correctness of JAX's own
+(* ---- round 4 ---- *)
+(* (6) the helper as a GENERATED kernel: Gen_TensorMathJVP.jvp_helper_gen is the whole body of _symmetric_matrix_function_jvp_helper,
+   re-translated from /repo on every run (func / relative_difference / jax.jacfwd(func) are oracle parameters, eigen_sym33_unit an opaque
+   function returning (lam, V)).  Whatever the opaque eigen-solver returns at the primal point, the generated kernel is the hand model applied
+   to that pair -- so every theorem above about jvp_helper is a theorem about the regenerated source -- and Daleckii-Krein for polynomials is
+   restated over the generated kernel with the eigh contract as a hypothesis on the returned pair. *)
+Theorem C10_generated_helper_is_model : forall (eigh : eigh_t) (func dfunc : R -> R) rel (C E : Rm) lam V,
+  eigh_returns eigh C lam V -> gen_helper eigh func dfunc rel C E = t9 (@jvp_helper R NumR dfunc rel lam V E).
+Proof. exact gen_helper_is_model. Qed.
+Theorem C10_daleckii_krein_polynomial_generated : forall (eigh : eigh_t) c func rel lam (V A E : Rm) i j, (i < 3)%nat -> (j < 3)%nat ->
+  eigh_returns eigh A lam V -> orth V -> eq3 A (cj V (Dg lam)) ->
+  (forall a b, a <> b -> rel a b = (peval 0 c a - peval 0 c b) / (a - b)) ->
+  is_derive (fun t => mpoly 0 c (line A (symd E) t) i j) 0 (c9 i j (gen_helper eigh func (pderiv 0 c) rel A E)).
+Proof. exact gen_daleckii_krein_polynomial. Qed.
+Example C10_generated_nonvacuous :
+  let A := cj Vrot (Dg (fun k => INR k + 1)) in
+  let eigh : eigh_t := fun _ _ _ _ _ _ _ _ _ => t12 (fun k => INR k + 1) Vrot in
+  eigh_returns eigh A (fun k => INR k + 1) Vrot /\ orth Vrot /\ eq3 A (cj Vrot (Dg (fun k => INR k + 1))).
+Proof. exact gen_nonvacuous. Qed.
+
+(* (7) the helper's output (and the primal V diag(f(lam)) V^T) does not depend on WHICH eigen-decomposition the eigen-solver returns: for a
+   repeated eigenvalue the eigenvectors are determined only up to a rotation of the eigenspace, and the order of the eigenvalues is a
+   convention.  For ANY two-argument g: V2 (g(l2) o V2^T S V2) V2^T = V1 (g(l1) o V1^T S V1) V1^T (o = entrywise product). *)
+Theorem C10_spectral_hadamard_invariant : forall (g : R -> R -> R) V1 l1 V2 l2 A (S : Rm),
+  orth V1 -> orth V2 -> eq3 A (cj V1 (Dg l1)) -> eq3 A (cj V2 (Dg l2)) ->
+  eq3 (cj V2 (fun a b => g (l2 a) (l2 b) * cj (tr V2) S a b)) (cj V1 (fun k l => g (l1 k) (l1 l) * cj (tr V1) S k l)).
+Proof. exact spectral_hadamard_invariant. Qed.
+Theorem C10_helper_eigh_invariant : forall (f df : R -> R) rel V1 l1 V2 l2 (A E : Rm),
+  (forall a b, a <> b -> rel a b = (f a - f b) / (a - b)) ->
+  orth V1 -> orth V2 -> eq3 A (cj V1 (Dg l1)) -> eq3 A (cj V2 (Dg l2)) ->
+  eq3 (@jvp_helper R NumR df rel l2 V2 E) (@jvp_helper R NumR df rel l1 V1 E).
+Proof. exact helper_eigh_invariant. Qed.
+Theorem C10_primal_eigh_invariant : forall (f : R -> R) V1 l1 V2 l2 A,
+  orth V1 -> orth V2 -> eq3 A (cj V1 (Dg l1)) -> eq3 A (cj V2 (Dg l2)) ->
+  eq3 (cj V2 (Dg (fun a => f (l2 a)))) (cj V1 (Dg (fun a => f (l1 a)))).
+Proof. exact primal_invariant. Qed.
+Example C10_invariance_nonvacuous :
+  let l := fun k : nat => match k with 2%nat => 5 | _ => 2 end in
+  orth I3 /\ orth Vrot /\ eq3 (Dg l) (cj I3 (Dg l)) /\ eq3 (Dg l) (cj Vrot (Dg l)) /\ Vrot 0%nat 1%nat <> I3 0%nat 1%nat.
+Proof. exact inv_nonvacuous. Qed.
+
+(* (8) Daleckii-Krein for a GENERAL scalar function given by a derivative hypothesis (is_derive f (lam_k) (df lam_k) at the eigenvalues),
+   non-diagonal argument, eigenvalues distinct OR coinciding.  The primal is V diag(f(lam)) V^T exactly as symmetric_matrix_function computes
+   it, with ANY eigen-solver `eig` satisfying the eigh contract along the line A + t sym(Cdot) (no regularity of eig is assumed: it may
+   permute eigenvalues and rotate eigenspaces erratically from one t to the next); the only analytic hypothesis is that SOME eigen-decomposition
+   (lt, Vt) of the line is differentiable at t = 0 (Rellich's theorem -- NOT proved here).  Then, entry by entry, the derivative at t = 0 of the
+   primal is what the helper returns for the eigen-pair eig returns at A.  (On a pair of coinciding eigenvalues differentiability of the path
+   forces the off-diagonal entry of V^T sym(Cdot) V to vanish for the path's own V(0); for the solver's V the invariance theorem (7) is used.) *)
+Theorem C10_daleckii_krein_eigenpath : forall (f df : R -> R) rel lam (V A E : Rm) (Vt : R -> Rm) (lt : R -> nat -> R) (dV : Rm) (dl : nat -> R) i j,
+  (i < 3)%nat -> (j < 3)%nat ->
+  orth V -> eq3 A (cj V (Dg lam)) ->
+  (forall a b, a <> b -> rel a b = (f a - f b) / (a - b)) ->
+  locally 0 (fun t => orth (Vt t) /\ eq3 (line A (symd E) t) (cj (Vt t) (Dg (lt t)))) ->
+  (forall a k, (a < 3)%nat -> (k < 3)%nat -> is_derive (fun t => Vt t a k) 0 (dV a k)) ->
+  (forall k, (k < 3)%nat -> is_derive (fun t => lt t k) 0 (dl k)) ->
+  (forall k, (k < 3)%nat -> is_derive f (lt 0 k) (df (lt 0 k))) ->
+  is_derive (fun t => cj (Vt t) (Dg (fun k => f (lt t k))) i j) 0 (@jvp_helper R NumR df rel lam V E i j).
+Proof. exact daleckii_krein_eigenpath. Qed.
+Theorem C10_daleckii_krein_eigh_solver : forall (eig : Rm -> (nat -> R) * Rm) (f df : R -> R) rel (A E : Rm)
+    (Vt : R -> Rm) (lt : R -> nat -> R) (dV : Rm) (dl : nat -> R) i j,
+  (i < 3)%nat -> (j < 3)%nat ->
+  locally 0 (fun t => orth (snd (eig (line A (symd E) t)))
+                      /\ eq3 (line A (symd E) t) (cj (snd (eig (line A (symd E) t))) (Dg (fst (eig (line A (symd E) t)))))) ->
+  (forall a b, a <> b -> rel a b = (f a - f b) / (a - b)) ->
+  locally 0 (fun t => orth (Vt t) /\ eq3 (line A (symd E) t) (cj (Vt t) (Dg (lt t)))) ->
+  (forall a k, (a < 3)%nat -> (k < 3)%nat -> is_derive (fun t => Vt t a k) 0 (dV a k)) ->
+  (forall k, (k < 3)%nat -> is_derive (fun t => lt t k) 0 (dl k)) ->
+  (forall k, (k < 3)%nat -> is_derive f (lt 0 k) (df (lt 0 k))) ->
+  is_derive (fun t => cj (snd (eig (line A (symd E) t))) (Dg (fun k => f (fst (eig (line A (symd E) t)) k))) i j) 0
+            (@jvp_helper R NumR df rel (fst (eig (line A (symd E) 0))) (snd (eig (line A (symd E) 0))) E i j).
+Proof. exact daleckii_krein_eigh_solver. Qed.
+(* the same along any differentiable path A(t) with A'(0) = sym(Cdot) *)
+Theorem C10_daleckii_krein_path : forall (f df : R -> R) rel lam (V E : Rm) (At Vt : R -> Rm) (lt : R -> nat -> R) (dV : Rm) (dl : nat -> R) i j,
+  (i < 3)%nat -> (j < 3)%nat ->
+  orth V -> eq3 (At 0) (cj V (Dg lam)) ->
+  (forall a b, a <> b -> rel a b = (f a - f b) / (a - b)) ->
+  (forall a b, (a < 3)%nat -> (b < 3)%nat -> is_derive (fun t => At t a b) 0 (symd E a b)) ->
+  locally 0 (fun t => orth (Vt t) /\ eq3 (At t) (cj (Vt t) (Dg (lt t)))) ->
+  (forall a k, (a < 3)%nat -> (k < 3)%nat -> is_derive (fun t => Vt t a k) 0 (dV a k)) ->
+  (forall k, (k < 3)%nat -> is_derive (fun t => lt t k) 0 (dl k)) ->
+  (forall k, (k < 3)%nat -> is_derive f (lt 0 k) (df (lt 0 k))) ->
+  is_derive (fun t => cj (Vt t) (Dg (fun k => f (lt t k))) i j) 0 (@jvp_helper R NumR df rel lam V E i j).
+Proof. exact daleckii_krein_path. Qed.
+(* non-vacuity: a path whose eigenvectors genuinely rotate (V^T V' <> 0), with f = ln *)
+Example C10_eigenpath_nonvacuous :
+  (forall t, orth (Vrott t) /\ eq3 (cj (Vrott t) (Dg (lrott t))) (cj (Vrott t) (Dg (lrott t))))
+  /\ (forall a k, (a < 3)%nat -> (k < 3)%nat -> is_derive (fun t => Vrott t a k) 0 (dVrot a k))
+  /\ (forall k, (k < 3)%nat -> is_derive (fun t => lrott t k) 0 (dlrot k))
+  /\ (forall k, (k < 3)%nat -> is_derive ln (lrott 0 k) (/ lrott 0 k))
+  /\ s3 (fun a => Vrott 0 a 0%nat * dVrot a 1%nat) = - 1.
+Proof. exact dkf_nonvacuous. Qed.
+
+(* (9) finding F14 characterised.  The generated helper evaluated at DUAL numbers (M_C10_Dual: JAX's forward mode over the rule's code --
+   selects on values, the opaque eigen-solver returning (value, tangent) pairs) is what jax.jvp of the rule computes.  Exact witness, f = x^2
+   (pow_symm(., 2), second derivative E1 E2 + E2 E1), A = diag(1, 1, 2), eigen-pair lam = (1, 1, 2), V = [[0,1,0],[-1,0,0],[0,0,1]]:
+   (a) with the eigen-solver tangent JAX produces for the direction e00 (dlam = (1/2, 1/2, 0), dV = 0; replayed on the implementation on
+       every run) the rule yields 1 in entry (0,0); the second derivative is 2;
+   (b) even with the tangent of an exact eigen-decomposition path of A + s e00 (dlam = (0, 1, 0), dV = 0) the rule yields 0 in entry (0,1)
+       for E1 = e01 + e10; the second derivative is 1 (the x2 == x1 branch differentiates df(x1) w.r.t. x1 only). *)
+Theorem C10_second_derivative_refuted :
+  orth Vw /\ eq3 Aw (cj Vw (Dg lamw))
+  /\ (dtan (dc9 0 0 (dual_helper (eighD lamw dlam_jax Vw Z33) sqD dsqD relsqD (dmat Aw e00) (dmat e00 Z33))) = 1
+      /\ is_derive (fun s => mm (line Aw e00 s) e00 0%nat 0%nat + mm e00 (line Aw e00 s) 0%nat 0%nat) 0 2)
+  /\ ((forall s, orth Vw /\ eq3 (line Aw e00 s) (cj Vw (Dg (fun k => lamw k + s * dlam_ex k))))
+      /\ dtan (dc9 0 1 (dual_helper (eighD lamw dlam_ex Vw Z33) sqD dsqD relsqD (dmat Aw e00) (dmat s01 Z33))) = 0
+      /\ is_derive (fun s => mm (line Aw e00 s) s01 0%nat 1%nat + mm s01 (line Aw e00 s) 0%nat 1%nat) 0 1).
+Proof. exact second_derivative_refuted. Qed.
+
+(* NOT PROVED: existence of an eigen-decomposition of A + t sym(Cdot) that is differentiable at t = 0 (Rellich / the implicit-function
+   theorem for simple eigenvalues): it is the hypothesis of (8); Frechet (uniform in the direction) rather than directional derivatives;
+   a correct SECOND-order rule (F14 is open; (9) shows the present rule is not one at repeated eigenvalues); that the dual-number
+   instance agrees with JAX's forward mode on every primitive (it is tied on the witness of (9) only); correctness of JAX's own
    differentiation of the remaining primitives (compared with finite differences on every run). *)
 
 Example C10_nonvacuous :
@@ -158,3 +268,5 @@ Print Assumptions C10_safe_sqrt_rule.
 Print Assumptions C10_relative_log_difference_accuracy.
 Print Assumptions C10_pow_relative_difference.
 Print Assumptions C10_daleckii_krein_polynomial_eigh.
+Print Assumptions C10_daleckii_krein_eigh_solver.
+Print Assumptions C10_second_derivative_refuted.
